@@ -195,7 +195,7 @@ def scaled(ctx):
     """size thresholds (RegroupBig.tla / MC_RegroupB.tla): TLC enumerates the patterns, the odd keys and the key choices and checks
     the scaling law against the relational verdicts on 2-4 copies; the driver scales every (pattern, odd key) to 17 ... 1030 rows,
     the odd row early / in the middle / late (beyond rows 16, 64, 100, 256, 1024), calls the real code; Trace_Regroup judges"""
-    ctx.mc('MC_RegroupB', 'MC_RegroupB_quick.cfg' if ctx.quick else 'MC_RegroupB_thorough.cfg', coverage=not ctx.quick)
+    ctx.mc('MC_RegroupB', 'MC_RegroupB_quick.cfg' if ctx.quick else 'MC_RegroupB_thorough.cfg', coverage=False)      # (one action)
     # regrouping by runs of the unsorted rows (one key cut into several groups) must be rejected by the scaling law
     if not ctx.quick:
         ctx.mc('MC_RegroupB', 'MC_RegroupB_split.cfg', must_fail='NeverSplit', coverage=False)
@@ -221,9 +221,8 @@ def scaled(ctx):
             if c % 16 == 3: plan.append((c, 1030, ('past:1024', 'middle', 'past:256', 'past:100')[(c // 16) % 4], c))
         else:
             for si, size in enumerate(SIZES[:5]):
-                for pi, pc in enumerate(['early', 'middle', 'late', 'last'] + ['past:%d' % t for t in THRESHOLDS if t + 2 < size]):
-                    for v in range(2 if size < 200 else 1):
-                        plan.append((c, size, pc, c + si + pi + 2 * v))
+                for pi, pc in enumerate((['early', 'middle', 'late', 'last'] if size < 200 else ['middle', 'late']) + ['past:%d' % t for t in THRESHOLDS if t + 2 < size]):
+                    plan.append((c, size, pc, c + si + pi))
             if c % 2 == 0: plan.append((c, 1030, ('past:1024', 'middle', 'past:256', 'past:100')[(c // 2) % 4], c))
     obs, seen = [], set()
     for c, size, pc, salt in plan:
@@ -251,6 +250,47 @@ def scaled_violation(ctx, clause, o):
                    'inv_rows': len(o['inv']['rows'])})
 
 
+TWIN_Y = {'i': [["i", 1], ["i", 2]], 'f': [["f", [1, 1]], ["f", [2, 1]]], 's': [["s", "1"], ["s", "2"]]}
+
+
+def twin_table(ty, xs):
+    y1, y2 = TWIN_Y[ty]
+    rows = [{'x': ["s", xs[0]], 'y': y1, 'z': ["i", 10]}, {'x': ["s", xs[0]], 'y': y2, 'z': ["i", 20]}, {'x': ["s", xs[1]], 'y': y1, 'z': ["i", 30]}]
+    return {'cols': ['x', 'y', 'z'], 'rows': rows}
+
+
+def twins(ctx):
+    """no memory ACROSS tables (class 2: process-level memos keyed on values that are equal by == but of another type): each history
+    runs in a FRESH Python process - the first table meets the labels 1 / 1.0 / '1' through pivot, the constructor or setitem, then
+    ANOTHER table is pivoted + unpivoted over the equal labels of another type; Trace_Regroup (op = twin) judges each call on its own"""
+    import os, sys, subprocess
+    from concurrent.futures import ThreadPoolExecutor
+    hows = ['pivot', 'ctor', 'setitem']
+    pairs = [(h, a, b) for h in hows for a in 'ifs' for b in 'ifs' if a != b]
+    if ctx.quick:        # (a fresh interpreter costs seconds: four histories, each followed by its mirror image in the same process)
+        pairs = [('pivot', 'f', 'i'), ('pivot', 's', 'i'), ('ctor', 'f', 'i'), ('setitem', 'i', 'f')]
+    jobs = []
+    for h, a, b in pairs:
+        mk = lambda h, a, b: {'first': {'how': h, 't': twin_table(a, 'uv'), 'key': TWIN_Y[a][0]}, 'second': twin_table(b, 'pq')}
+        jobs.append([mk(h, a, b), mk(h, b, a), mk('pivot', a, a)])
+    env = dict(os.environ, PYTHONPATH=os.pathsep.join(p for p in sys.path if p))
+    def fresh(cases):
+        r = subprocess.run([sys.executable, '-W', 'ignore', '-m', 'harness.x_regroup_twin'], input=json.dumps(cases), capture_output=True, text=True, env=env, timeout=300)
+        if r.returncode:
+            raise Machinery('a fresh process of harness.x_regroup_twin failed: %s' % r.stderr[-800:])
+        return json.loads(r.stdout)
+    with ThreadPoolExecutor(4) as ex:
+        obs = [o for got in ex.map(fresh, jobs) for o in got]
+    if len(obs) != 3 * len(jobs):
+        raise Machinery('twin histories were lost')
+    for (h, a, b), k in zip(pairs, range(0, len(obs), 3)):
+        for j in range(3):
+            obs[k + j]['hist'] = [h, a, b, j]
+            ctx.note(('twin', h, a, b, j))
+    ctx.sample({'observation_twin': obs[0]})
+    return obs
+
+
 def run(ctx):
     ctx.rule = ('TLC enumerates tables (<= 2-3 rows, key cells None/1/1.0/2/"s"/date/two NaN objects, unique id column) x key choices; '
                 'each is pushed through listby+unlist, groupby+ungroup and (decorated with y/z columns) pivot+unpivot in rotating spellings. '
@@ -266,6 +306,14 @@ def run(ctx):
                 'forward-edit-forward-inverse, forward-forward-inverse-inverse, forward-respec-forward-inverse, forward-inverse-forward-inverse; '
                 'thorough: wider tables / name lists / dicts, longer plans, simulated free sessions of 6 steps); after EVERY step every object is '
                 'projected again; the law judges each result by the arguments as they are at that moment and rejects any object that changed. '
+                'SIZE THRESHOLDS (RegroupBig / MC_RegroupB): TLC enumerates 9 key patterns (ints only, strings only, 1 and 1.0, None, two NaN '
+                'objects, mixed types) x 8 odd keys (none, a NaN of another identity, 2.5, 2.0, None, a string, a date, an int) x 3 key choices and '
+                'checks on 1-3 copies that the linear-time scaling law and the relational verdicts agree (on constructive and on damaged results); '
+                'the driver scales each (pattern, odd key) to 20 / 68 / 104 / 130 / 260 / 1030 rows (rows repeated or in blocks, the odd row early, in '
+                'the middle, late, last, or two rows beyond the first 16 / 64 / 100 / 128 / 256 / 1024) through listby+unlist, groupby+ungroup, pivot '
+                '(y = a key column, all four aggregations) and pivot+unpivot with the ids as y (one column per row); Trace_Regroup op=scale judges. '
+                'TWINS: in FRESH interpreters a first table meets the labels 1 / 1.0 / "1" through pivot, the constructor or setitem, then another '
+                'table is pivoted + unpivoted over equal labels of another type; every call is judged on its own (op=twin). '
                 'Non-trivial = some key class has more than one row / a label that occurs in a column name or is not a string.')
     ctx.mc('MC_Regroup', 'MC_Regroup_quick.cfg' if ctx.quick else 'MC_Regroup_thorough.cfg')
     if not ctx.quick:       # quick: the laws of MC_RegroupN are invariants of its generator run below
@@ -343,12 +391,17 @@ def run(ctx):
         obs.append(obs_pivot(pt, [m[c] for c in x], 'name' if (len(x) == 1 and i % 3) else 'list', m['y'], m['z'], rng.choice(['last', 'list', 'len', 'first', 'last']), i))
         ctx.note(('rand', i))
     obs += scaled(ctx)
+    obs = twins(ctx) + obs
     ctx.evals += len(obs)
     bad = ctx.validate('Trace_Regroup', obs)
     for line, clause in bad:
         o = obs[line - 1]
         if o['op'] == 'scale':
             scaled_violation(ctx, clause, o)
+            continue
+        if o['op'] == 'twin':
+            ctx.violation(clause, {'op': 'twin', 'how': o['hist'][0], 'first_type': o['hist'][1], 'second_type': o['hist'][2], 'nth': o['hist'][3]},
+                          {'first': {k: o['first'].get(k) for k in ('made', 'out', 'unp', 'raised')}, 'second': {k: o['second'].get(k) for k in ('out', 'unp', 'raised')}})
             continue
         case = {k: o[k] for k in ('op', 't', 'by', 'form', 'idcol', 'grp', 'x', 'y', 'z', 'agg') if k in o}
         if o['op'] == 'pivot':
@@ -367,6 +420,11 @@ def run(ctx):
                         'key arguments are spelled as separate names or one list (listby/groupby), one name or a list (pivot/unpivot x); tuples are not a '
                         'spelling of several keys in dictable (a tuple is one composite key) and y / z are always single names',
                         'row order of listby/groupby/pivot results is not pinned; unlist must be sorted under the real cmp, stable and contiguous',
+                        'scaled tables: the keys are columns of the pattern, never an id column; the real table is built by the driver from the description '
+                        'and Trace_Regroup (operand_changed) also checks that it is the table the scaling rule describes; quick covers every (pattern, odd key) '
+                        'once beyond row 100 with the single key column a, other sizes / positions / key choices in rotation (thorough: all positions)',
+                        'twins: the histories run in fresh interpreters (harness.x_regroup_twin) so that the first table is the first the process ever sees; '
+                        'bool labels are outside the domain (scalar cells are None, ints, floats, strings, datetimes)',
                         'sessions: the result of sort is an ordinary table of the store and is not judged (C07); a regrouped table that the caller '
                         'edited in place is no longer the regrouping of anything: inverse calls on it are not generated; the {name: columns} spelling '
                         'of unpivot\'s y asks for the rows of the listed columns only; unpivot is followed by dropping the None cells (as in the '
